@@ -1168,6 +1168,15 @@ silent("c05-s-approximate-fresh-only", "C05", TERMS,
        "        bound = {v.name: v.output for v in approx_vars}\n        super().__init__(inputs, output, fresh, bound)\n        self.op = op\n        self.model = model",
        "        bound = {}\n        super().__init__(inputs, output, fresh, bound)\n        self.op = op\n        self.model = model")
 
+
+fire("c04-pairs-selected-by-fresh-names-of-result", "C04", TERMS,
+     "            fresh = expr.fresh if node_fresh is None else node_fresh\n", "            fresh = expr.fresh\n", "R04.17", "SubstituteInterpretation.interpret")
+fire("c04-driver-never-hands-over-node-fresh", "C04", TERMS,
+     "                subs_interpretation.fresh = value.fresh\n", "                pass\n", "R04.17", "SubstituteInterpretation.interpret")
+silent("c04-s-node-fresh-preferred-by-if-statement", "C04", TERMS,
+       "            fresh = expr.fresh if node_fresh is None else node_fresh\n",
+       "            fresh = node_fresh\n            if fresh is None:\n                fresh = expr.fresh\n")
+
 # ===== derived variants: must stay at the END of this file (they enumerate every rename() variant above) =====
 # `if c: A else: B` -> `if not c: B else: A` in the anchor functions (behaviour-preserving)
 def invert(prop, file, qual):
